@@ -306,21 +306,24 @@ def run(ctx):
         check_case(ctx, c["case"] if "case" in c else c, drv)
     for c in fixed_cases():
         check_case(ctx, c, drv)
-    n_cache, n_codegen = (260, 8) if quick else (4000, 160)
+    n_cache, n_codegen = (400, 10) if quick else (4000, 160)
     # codegen cases are spread over the run so that a time-out keeps both kinds
     every = max(1, n_cache // max(1, n_codegen))
     done_cg = 0
     for i in range(n_cache):
-        if ctx.time_left() < 0:
+        if ctx.time_left() < (8 if quick else 0):
             ctx.notes.append("generated cases stopped by the time budget after %d of %d" % (i, n_cache))
             break
         check_case(ctx, gen_case(ctx.rng, "cache"), drv)
-        if i % every == 0 and done_cg < n_codegen and ctx.time_left() > 3:
+        if i % every == 0 and done_cg < n_codegen:
             done_cg += 1
-            c = gen_case(ctx.rng, "codegen")
+            c = gen_case(ctx.rng, "codegen")      # always drawn: the case sequence depends on the seed only
             if done_cg == 1:
                 c.update(text=TARGETED[2][0], opts=dict(TARGETED[2][1]), features=["targeted"])
-            check_case(ctx, c, drv)
+            if ctx.time_left() > (12 if quick else 5):
+                check_case(ctx, c, drv)
+            else:
+                ctx.count("codegen-case-skipped-for-time")
     ctx.extra["exhaustive"] = False
 
 
